@@ -180,6 +180,11 @@ func (e *Engine) register(cf *ContractFile) error {
 			if c.Kind == "func" {
 				e.Order = append(e.Order, k)
 			}
+		case "lemma":
+			k := "lemma:" + c.Key
+			e.Contracts[k] = c
+			c.Key = k
+			e.Order = append(e.Order, k)
 		case "iface":
 			// key: Iface.Method  (package-relative) or full "(pkg.Iface).Method"
 			k := c.Key
